@@ -81,7 +81,7 @@ func init() {
 		ID:        "C03",
 		QuickSecs: 300, ThoroSecs: 1200,
 		Rule: "input-space exploration of the real parser: every argv of length <= L over a 21-token alphabet (positionals, empty string, lonesome dash, terminator, known/unknown long, short and bundled options, attached and detached values, multi-value string / int / map options with optional further values, command names) " +
-			"in all 18 mode x unknown-mode x require-order configurations plus 36 in which the command, or only its sub-command, sets a different unknown-mode than the root; remaining compared (i) model-free as a sub-sequence of the input and (ii) with the reference model; states = argv prefixes visited, transitions = token appends, " +
+			"in all 18 mode x unknown-mode x require-order configurations plus 36 in which the command, or only its sub-command, sets a different unknown-mode than the root, and 6 in which that sub-command is the only command that does; remaining compared (i) model-free as a sub-sequence of the input and (ii) with the reference model; states = argv prefixes visited, transitions = token appends, " +
 			"distinct_nontrivial = distinct (configuration, argv) cases inside the specified territory (every enumerated case is distinct by construction)",
 		Assume: []string{"tokens outside the alphabet and argv longer than L are not covered", "cases in the closed list of unspecified zones (DESIGN.md section 3) are only checked model-free"},
 		Run: func(c *RunCtx) {
@@ -118,6 +118,14 @@ func init() {
 					root3.Cmds = []*ph.CmdDef{&kid3, d.Root.Cmds[1]}
 					d3.Root = root3
 					defs = append(defs, &d3)
+					// ... and no sibling command passes unknown options either (`w` is then plain text)
+					if d.Mode == 0 {
+						d4 := d3
+						root4 := root3
+						root4.Cmds = []*ph.CmdDef{&kid3}
+						d4.Root = root4
+						defs = append(defs, &d4)
+					}
 				}
 			}
 			c.Res.Bounds = map[string]any{"L": depth, "alphabet": alpha, "alphabet_extension_for_argv_shorter_than_L": ext, "configurations": len(defs)}
